@@ -25,6 +25,15 @@ func main() {
 		verbose := fs.Bool("v", false, "verbose")
 		fs.Parse(os.Args[2:])
 		os.Exit(vc.RunCheck(vc.CheckOpts{Prop: *prop, Tier: *tier, Repo: *repo, Verif: *verif, Only: *only, Verbose: *verbose, Start: time.Now()}))
+	case "why":
+		p, err := vc.Load("/repo")
+		if err != nil {
+			fmt.Fprintln(os.Stderr, err)
+			os.Exit(2)
+		}
+		for _, k := range p.WhyReach(os.Args[2], os.Args[3]) {
+			fmt.Println(k)
+		}
 	case "replay":
 		if len(os.Args) < 3 {
 			fmt.Fprintln(os.Stderr, "usage: gocv replay <file>")
